@@ -200,6 +200,13 @@ func runC16(cfg *config) *Report {
 				m[r.Intn(len(m))] ^= byte(1 + r.Intn(255))
 				inputs = append(inputs, input{m, e, "one byte corrupted", false})
 			}
+			if e.LP {
+				// a complete file followed by the beginning of a further record (block padding, the start of a second
+				// file): the stream ends inside a record, which is an error whatever has been read before
+				for _, tail := range [][]byte{{0}, {0, 0, 0}, {0, 0, 0, 80}, append([]byte{0, 0, 0, 80}, bytes.Repeat([]byte{0x40}, 37)...), {0x40, 0x40, 0x40, 0x40, 0x40}, {0x20, 0x20}} {
+					inputs = append(inputs, input{append(append([]byte{}, out...), tail...), e, fmt.Sprintf("whole file followed by %d bytes of a further record", len(tail)), true})
+				}
+			}
 			if !e.LP {
 				// the same file with CR LF line ends (the carriage return is dropped by the line splitter)
 				crlf := bytes.ReplaceAll(out, []byte("\n"), []byte("\r\n"))
